@@ -408,6 +408,26 @@ class PyformatParameter(DictParameter):
         return placeholder[2:-2]
 
 
+def _is_predicate(term: Any) -> bool:
+    """
+    True for a comparison, LIKE, IN, BETWEEN, IS [NOT] NULL or AND/OR/XOR term. These bind looser than every operator
+    they can be an operand of (and are not associative among themselves), so they are parenthesised when used as an
+    operand.
+    """
+    if isinstance(term, BasicCriterion):
+        # the JSON operators (->, ->>, #>, @>, ...) are value operators, not predicates
+        return isinstance(term.comparator, Comparator)
+    return isinstance(term, (ContainsCriterion, RangeCriterion, NullCriterion))
+
+
+def _operand_sql(term: "Term", **kwargs: Any) -> str:
+    if _is_predicate(term):
+        # the operand gets its own parentheses here: do not let an enclosing NOT bracket it a second time
+        kwargs.pop("subcriterion", None)
+        return "({})".format(term.get_sql(**kwargs))
+    return term.get_sql(**kwargs)
+
+
 class Negative(Term):
     def __init__(self, term: Term) -> None:
         super().__init__()
@@ -422,7 +442,7 @@ class Negative(Term):
         self.term = self.term.replace_table(current_table, new_table)
 
     def get_sql(self, **kwargs: Any) -> str:
-        term_sql = self.term.get_sql(**kwargs)
+        term_sql = _operand_sql(self.term, **kwargs)
         if isinstance(self.term, (ArithmeticExpression, Negative)) or term_sql.startswith("-"):
             # the minus applies to the whole operand: -(a+b); "--" would start a comment: -(-a), -(-1)
             term_sql = "({})".format(term_sql)
@@ -915,8 +935,8 @@ class BasicCriterion(Criterion):
     def get_sql(self, quote_char: str = '"', with_alias: bool = False, **kwargs: Any) -> str:
         sql = "{left}{comparator}{right}".format(
             comparator=self.comparator.value,
-            left=self.left.get_sql(quote_char=quote_char, **kwargs),
-            right=self.right.get_sql(quote_char=quote_char, **kwargs),
+            left=_operand_sql(self.left, quote_char=quote_char, **kwargs),
+            right=_operand_sql(self.right, quote_char=quote_char, **kwargs),
         )
         if with_alias:
             return format_alias_sql(sql, self.alias, **kwargs)
@@ -966,7 +986,7 @@ class ContainsCriterion(Criterion):
 
     def get_sql(self, subquery: Any = None, **kwargs: Any) -> str:
         sql = "{term} {not_}IN {container}".format(
-            term=self.term.get_sql(**kwargs),
+            term=_operand_sql(self.term, **kwargs),
             container=self.container.get_sql(subquery=True, **kwargs),
             not_="NOT " if self._is_negated else "",
         )
@@ -1036,9 +1056,9 @@ class BetweenCriterion(RangeCriterion):
     def get_sql(self, **kwargs: Any) -> str:
         # FIXME escape
         sql = "{term} BETWEEN {start} AND {end}".format(
-            term=self.term.get_sql(**kwargs),
-            start=self.start.get_sql(**kwargs),
-            end=self.end.get_sql(**kwargs),
+            term=_operand_sql(self.term, **kwargs),
+            start=_operand_sql(self.start, **kwargs),
+            end=_operand_sql(self.end, **kwargs),
         )
         return format_alias_sql(sql, self.alias, **kwargs)
 
@@ -1111,7 +1131,7 @@ class NullCriterion(Criterion):
 
     def get_sql(self, with_alias: bool = False, **kwargs: Any) -> str:
         sql = "{term} IS NULL".format(
-            term=self.term.get_sql(**kwargs),
+            term=_operand_sql(self.term, **kwargs),
         )
         return format_alias_sql(sql, self.alias, **kwargs)
 
@@ -1119,7 +1139,7 @@ class NullCriterion(Criterion):
 class NotNullCriterion(NullCriterion):
     def get_sql(self, with_alias: bool = False, **kwargs: Any) -> str:
         sql = "{term} IS NOT NULL".format(
-            term=self.term.get_sql(**kwargs),
+            term=_operand_sql(self.term, **kwargs),
         )
         return format_alias_sql(sql, self.alias, **kwargs)
 
@@ -1250,7 +1270,7 @@ class ArithmeticExpression(Term):
     def get_sql(self, with_alias: bool = False, **kwargs: Any) -> str:
         left_op, right_op = [getattr(side, "operator", None) for side in [self.left, self.right]]
 
-        right_sql = self.right.get_sql(**kwargs)
+        right_sql = _operand_sql(self.right, **kwargs)
         # a negative literal or a negation to the right of '-' needs parentheses too: "--" would start a comment
         right_parens = self.right_needs_parens(self.operator, right_op) or (
             self.operator == Arithmetic.sub and right_sql.startswith("-")
@@ -1259,7 +1279,7 @@ class ArithmeticExpression(Term):
         arithmetic_sql = "{left}{operator}{right}".format(
             operator=self.operator.value,
             left=("({})" if self.left_needs_parens(self.operator, left_op) else "{}").format(
-                self.left.get_sql(**kwargs)
+                _operand_sql(self.left, **kwargs)
             ),
             right=("({})" if right_parens else "{}").format(right_sql),
         )
